@@ -12,7 +12,9 @@ for d in seeded/${1:-}*/; do
   n=$(basename $d)
   checks=$(python3 -c "import json;print(' '.join(json.load(open('$d/meta.json'))['detected_by']))")
   git -C "$wt" apply "$PWD/$d/patch.diff" || { echo "$n -> patch does not apply"; fail=1; continue; }
-  res=$(NO_BASELINE=$([ -z "$BASELINE" ] && echo 1) bin/trymutant_wt.sh "$wt" $checks 2>&1 | awk '{print $1":"$2}' | tr '\n' ' ')
+  full=$(NO_BASELINE=$([ -z "$BASELINE" ] && echo 1) MAXSIGS=40 bin/trymutant_wt.sh "$wt" $checks 2>&1)
+  [ -n "$SIGLOG" ] && echo "$full" | sed "s/^/$n /" >> "$SIGLOG"
+  res=$(echo "$full" | awk '{print $1":"$2}' | tr '\n' ' ')
   git -C "$wt" checkout -q -- . ; git -C "$wt" clean -fdq
   echo "$n -> $res"
   case "$res" in *MISSED*|*BROKEN*|*BASELINE*|*trymutant*) fail=1;; esac
